@@ -429,7 +429,10 @@ def run(rep):
             if r2.violated != "Coherent":
                 raise tlc.TlcError(f"vacuity self-test: deviation {dev} does not violate Coherent (got {r2.violated})")
             rep.notes.setdefault("deviations_shown_to_violate_Coherent", []).append(dev)
-        run_walks(rep, dot, ["generic", "request", "decoded", "grouped"], tours=rep.tier != "quick")
+        # thorough: list length <= 3 gives a graph of several hundred thousand (state, action) groups per container; the tours
+        # are capped (coverage is reported in the evidence), the model itself is checked exhaustively above
+        run_walks(rep, dot, ["generic", "request", "decoded", "grouped"], tours=rep.tier != "quick",
+                  max_groups=None if rep.tier == "quick" else 150000)
     finally:
         tlc.cleanup(wd)
     rep.exhaustive = True
